@@ -247,10 +247,10 @@ PROPS = {
         "not_covered": ["symbol_order axioms", "standard preamble"],
     },
     "C13": {
-        "units": ["outline"],
+        "units": ["outline", "seq"],
         "level": "other",
         "property_obligations": ["Formula::inductive_lemma", "lemma_induction", "lemma_induct", "lemma_ucl_valid",
-                                 "Formula::definition", "lemma_def_ok", "lemma_definition_conservative", "lemma_pred_coin_cl", "lemma_preds_cover", "lemma_extend_len"],
+                                 "Formula::definition", "AssembledExternalEquivalenceTask::forward_outline", "AssembledExternalEquivalenceTask::backward_outline", "lemma_outline_index", "lemma_def_ok", "lemma_definition_conservative", "lemma_pred_coin_cl", "lemma_preds_cover", "lemma_extend_len"],
         "carriers": ["Formula::universal_closure", "Variable::try_from", "WithWarnings::preface_warnings"],
         "explanation": "Inductive lemmas: Verus proves on the real CheckInternal::inductive_lemma (with the real unbox, universal_closure, free_variables, quantify and the C17 contract of substitute) that whenever it "
                        "returns Ok((base, step)), base and step together imply the lemma `forall V (N >= n -> F)` in every classical interpretation under every sort-respecting assignment — by an induction over the "
@@ -259,16 +259,20 @@ PROPS = {
                        "distinct, every argument of the atom a variable, the arguments and X the same set, p (name/arity) not among the taken predicates, F without free variables outside X and without predicates "
                        "outside the taken ones (def_ok); and lemma_definition_conservative proves that every such formula is a conservative extension: each interpretation of the earlier vocabulary has an "
                        "expansion, differing only in the extent of p, in which the definition is true — which is what makes it safe as an axiom of every later problem. "
-                       "NOT under contract: GeneralLemma::try_from, ProofOutline::from_specification (the growth of the taken set along the outline) and the sequencing loop of "
-                       "AssembledExternalEquivalenceTask::decompose (enumerate/format!/iter::once/flat_map).",
+                       "Sequencing (first sentence of C13): the two outline blocks of the real AssembledExternalEquivalenceTask::decompose are extracted as statement fragments and proved to emit, for conjecture j of "
+                       "lemma i, a problem assembled from exactly the stable premises, the premises of that direction, the accepted definitions of that direction (as axioms), the consequences of the lemmas 0..i-1 "
+                       "and that conjecture, in emission order (lemma_outline_index: problem number offset(i)+j) — a lemma's consequences enter the axioms only after all its own problems were pushed. "
+                       "NOT under contract: GeneralLemma::try_from, ProofOutline::from_specification (the growth of the taken set along the outline) and the final forward/backward problems "
+                       "(flat_map over the lemmas).",
         "assumptions": [
             "Formula::substitute is used through its contract subst_ht, which is PROVED in unit subst (C17) on the same working tree",
             "IndexSet == is set equality (indexmap documentation); IndexSet::from_iter(vec) = insertion-ordered dedup; IndexSet::difference(..).next() yields an element of the first set that is not in the second, "
             "None only if there is none (indexmap documentation)",
             "D19: CheckInternal::definition and TryFrom<GeneralTerm> for Variable are verified as inherent methods (same bodies)",
-            "GeneralLemma::try_from, ProofOutline::from_specification, AssembledExternalEquivalenceTask::decompose: NOT verified (the 'used only after established' half of C13 is not decided)",
+            "unit seq: Problem::with_name/add_annotated_formulas/rename_conflicting_symbols/create_unique_formula_names are ASSUMED builder contracts over an uninterpreted `psrc` (the sequence of annotated formulas a problem was assembled from); std::iter::once per std docs; D9 fragments, D14, D28 (`vec.extend(e)` -> push loop), D6",
+            "GeneralLemma::try_from, ProofOutline::from_specification, the final forward_problem/backward_problem assembly: NOT verified",
         ],
-        "not_covered": ["ProofOutline::from_specification", "lemma sequencing in AssembledExternalEquivalenceTask::decompose", "GeneralLemma::try_from"],
+        "not_covered": ["ProofOutline::from_specification", "final forward/backward problem of AssembledExternalEquivalenceTask::decompose", "GeneralLemma::try_from"],
     },
     "C03": {
         "units": ["gamma", "strong"],
@@ -287,7 +291,7 @@ PROPS = {
         "not_covered": ["StrongEquivalenceTask::decompose", "Problem::add_theory", "decompose_independent/sequential"],
     },
     "C16": {
-        "units": ["tptpnum", "ensure", "ext", "subst", "tau", "nat", "outline", "strong", "gamma", "break", "simp_int", "apply", "problem", "prover", "files"],
+        "units": ["tptpnum", "ensure", "ext", "subst", "tau", "nat", "outline", "seq", "strong", "gamma", "break", "simp_int", "simp_cl", "apply", "problem", "prover", "files"],
         "level": "other",
         "property_obligations": ["numeral_arm", "callsite_roles_checked_before_routing"],
         "carriers": [],
